@@ -421,7 +421,8 @@ package ion
 //@ split returns
 //@ requires bsStream(b) && bsPos(b) && bsRoom(b, length)
 //@ modifies b.pos, vcStreamOf(b.in).cur
-//@ ensures[C03,C06] bsStream(b) && bsPos(b)
+//@ ensures[C03,C06] bsStream(b)
+//@ ensures[C03,C06] bsPos(b)
 //@ ensures[C03,C08] err == nil ==> b.pos == old(b.pos)+length && bsS(b).cur == old(bsS(b).cur)+int(length) && result != nil && result.n != nil
 //@ ensures[C01,C03] err == nil && length > 0 ==> int64(-result.scale) == specVarIntValue(bsS(b).data, old(bsS(b).cur), specVarUintEnd(old(bsS(b))))
 //@ ensures[C01,C03] err == nil && length == 0 ==> result.scale == 0 && !result.isNegZero && result.n.Sign() == 0
